@@ -334,9 +334,9 @@ class Executor(object):
         if etype in ('int', 'u32'):
             arr = z3.Const(n + '.a', z3.ArraySort(IntS, IntS))
             return VSeq(length, lambda i, a=arr: VInt(z3.Select(a, i)), etype, [arr])
-        if etype in ('bytes', 'str'):
+        if etype in ('bytes', 'str', 'bytearray'):
             arr = z3.Const(n + '.a', z3.ArraySort(IntS, Bytes))
-            mk = VStr if etype == 'str' else (lambda t: VBytes(t, False))
+            mk = VStr if etype == 'str' else (lambda t, ba=(etype == 'bytearray'): VBytes(t, ba))
             return VSeq(length, lambda i, a=arr: mk(z3.Select(a, i)), etype, [arr])
         if etype.startswith('opaque'):
             tag = etype.split(':', 1)[1] if ':' in etype else 'x'
@@ -1056,6 +1056,8 @@ class Executor(object):
                         attr_targets.append(t)
                 elif isinstance(n, ast.Call):
                     calls.append(n)
+                    if isinstance(n.func, ast.Attribute) and n.func.attr in ('append', 'extend') and isinstance(n.func.value, ast.Name):
+                        names.add(n.func.value.id)
                 elif isinstance(n, ast.ExceptHandler) and n.name:
                     names.add(n.name)
         return names, attr_targets, calls
@@ -1111,7 +1113,9 @@ class Executor(object):
                 for c in calls2:
                     locs.extend(self.call_write_set(c))
                 for n in sorted(names2):
-                    if n in cenv:
+                    if n in self.contract.locals_types:
+                        cenv[n] = self.fresh(self.contract.locals_types[n], n)
+                    elif n in cenv:
                         v = cenv[n]
                         if isinstance(v, (VObj, VLock, VClass, VFunc, VModule)):
                             continue
@@ -1119,8 +1123,6 @@ class Executor(object):
                             cenv[n] = self.refresh_like(v, n)
                         except Unsupported:
                             del cenv[n]
-                    elif n in self.contract.locals_types:
-                        cenv[n] = self.fresh(self.contract.locals_types[n], n)
             finally:
                 self.env = saved_env
         uniq = {}
@@ -1944,9 +1946,9 @@ class Executor(object):
         # exceptional outcomes
         for cls, clauses in contract.raises.items():
             if self.choose('%s.raises.%s' % (contract.key, cls)):
-                self.apply_effects(contract, bound, old, old_bound, clauses, None, cls)
                 cname = cls.rstrip('+') if cls != '*' else 'AnyError'
                 exc = VExc(cname, self.world.exc_payload(self, contract, cname, bound))
+                self.apply_effects(contract, bound, old, old_bound, clauses, None, cls, exc=exc)
                 event['outcome'] = ('raise', cname)
                 event['post'] = self.capture_modified(contract, bound)
                 raise RaiseSig(exc)
@@ -1976,7 +1978,7 @@ class Executor(object):
                 pass
         return out
 
-    def apply_effects(self, contract, bound, old, old_bound, clauses, result, exc_cls, rtype=None):
+    def apply_effects(self, contract, bound, old, old_bound, clauses, result, exc_cls, rtype=None, exc=None):
         locs = []
         for m in contract.modifies:
             locs.extend(self.resolve_path(m, bound))
@@ -1985,10 +1987,23 @@ class Executor(object):
         scope['G'] = self.G
         if result is not None:
             scope['result'] = result
+        if exc is not None:
+            scope['exc'] = exc
         saved = (self.old_snap, self.old_env)
         self.old_snap, self.old_env = old, old_bound
         try:
             self.bind_lets(contract, scope)
+            if exc is not None:
+                # `exc.payload == E` defines the payload the callee attaches to the exception
+                rest = []
+                for c in clauses:
+                    t = c.tree
+                    if isinstance(t, ast.Compare) and len(t.ops) == 1 and isinstance(t.ops[0], ast.Eq) and isinstance(t.left, ast.Attribute) \
+                            and t.left.attr == 'payload' and isinstance(t.left.value, ast.Name) and t.left.value.id == 'exc':
+                        exc.payload = self.eval_clause_value_tree(t.comparators[0], scope)
+                    else:
+                        rest.append(c)
+                clauses = rest
             holder = {'result': result}
             fresh_locs = {(id(o), f) for o, f in locs}
             done_locs = set()
@@ -2026,6 +2041,7 @@ class Executor(object):
                 if v is not None and type(v) is type(cur) and isinstance(v, (VInt, VBytes, VBool, VReal)):
                     if isinstance(v, VBytes):
                         v = VBytes(v.term, cur.ba)
+                    self.assume(veq(cur, v))         # earlier terms may already mention the havocked symbol
                     scope[lhs.id] = v
                     holder.setdefault('names', {})[lhs.id] = v
                     done_locs.add(lhs.id)
@@ -2041,6 +2057,7 @@ class Executor(object):
                     if v is not None and type(v) is type(cur) and isinstance(v, (VInt, VBytes, VBool, VReal, VMap)):
                         if isinstance(v, VBytes):
                             v = VBytes(v.term, cur.ba)
+                        self.assume(veq(cur, v))     # earlier terms may already mention the havocked symbol
                         loc[0].fields[loc[1]] = v
                         done_locs.add((id(loc[0]), loc[1]))
                         done = True
